@@ -600,9 +600,12 @@ class Gen:
             self.do({"op": "wrap", "t": "SecretInteger", "r": self.last()})
             self.do({"op": "bin", "bop": "add", "a": a, "b": self.last()})
             bad = self.last()
-            self.m.compile([[first, "first", self.parties[0]], [bad, "second", pm]])
+            # the output names are the ones later compilations use too (whatever the compiler keeps per output name —
+            # timers, caches — must not survive the failure)
+            self.m.compile([[first, "out0", self.parties[0]], [bad, "out1", pm]])
             y = self.new_input(T)
             self.do({"op": "bin", "bop": "eq", "a": y, "b": y})
+            self.m.compile([[self.last(), "out1", self.parties[0]], [y, "out0", self.parties[0]]])
             self.compile_now(prefer=[self.last()])
             self.compile_now(prefer=[y])
             return None
